@@ -61,6 +61,9 @@ func infeEntry(r *core.Rng, size int) []byte {
 		body = append(body, r.PickStr("application/rdf+xml\x00", "image/jpeg\x00", "\x00", "x", "application/rdf+xml")...)
 	}
 	b := fullBox(typ, ver, r.Pick(0, 0, 1), body)
+	if size == -1 {
+		size = len(b) // exactly what the fields written need: every optional part ends at the box end
+	}
 	if size < 8 {
 		// declared size below a box header: only the size field says so
 		copy(b, be32(size))
@@ -76,11 +79,45 @@ func infeEntry(r *core.Rng, size int) []byte {
 	return b
 }
 
+// iinfAllBox is an item-information box holding every combination of item type, tail form
+// (nothing / terminator / name without terminator / terminator and content type / terminator and
+// unterminated content type) and version once, each entry exactly as long as its fields.
+func iinfAllBox(r *core.Rng) []byte {
+	var kids []byte
+	n := 0
+	for _, it := range []string{"Exif", "mime", "hvc1", "grid", "uri ", "av01"} {
+		for _, tail := range []string{"", "\x00", "name", "\x00application/rdf+xml\x00", "\x00image/jpeg", "\x00\x00"} {
+			for _, ver := range []int{2, 2, 3, 0} {
+				body := append(be16(n+1), be16(0)...)
+				body = append(body, it...)
+				body = append(body, tail...)
+				e := fullBox("infe", ver, r.Pick(0, 0, 1), body)
+				kids = append(kids, e...)
+				n++
+			}
+		}
+	}
+	// entries in a seeded rotation, so that each kind also comes last
+	cut := 0
+	for k := r.Intn(n); k > 0; k-- {
+		cut += int(kids[cut])<<24 | int(kids[cut+1])<<16 | int(kids[cut+2])<<8 | int(kids[cut+3])
+	}
+	kids = append(append([]byte(nil), kids[cut:]...), kids[:cut]...)
+	return fullBox("iinf", 0, 0, append(be16(n), kids...))
+}
+
 func iinfBox(r *core.Rng) []byte {
+	if r.Chance(1, 5) {
+		return iinfAllBox(r)
+	}
 	n := r.Pick(0, 1, 1, 2, 2, 3, 6)
 	var kids []byte
 	for i := 0; i < n; i++ {
-		kids = append(kids, infeEntry(r, r.Pick(0, 4, 8, 11, 12, 13, 16, 19, 20, 20, 21, 21, 22, 23, 24, 30, 40, 41))...)
+		sz := r.Pick(0, 4, 8, 11, 12, 13, 16, 19, 20, 20, 21, 21, 22, 23, 24, 30, 40, 41)
+		if r.Chance(2, 5) {
+			sz = -1
+		}
+		kids = append(kids, infeEntry(r, sz)...)
 	}
 	if r.Chance(1, 6) {
 		kids = append(kids, r.Bytes(r.Range(1, 11))...) // slack shorter than an entry header
@@ -361,6 +398,20 @@ func TIFFShape(r *core.Rng) ([]byte, string) {
 			tg := tagsByDir[kind][r.Intn(len(tagsByDir[kind]))]
 			ty := r.Pick(1, 2, 2, 3, 3, 4, 4, 5, 5, 7, 10, 13, 0)
 			cnt := uint32(r.Pick(0, 1, 1, 2, 3, 4, 5, 6, 8, 11, 20, 0x7fffffff, 0xffffffff, 0x40000001, 0x40000002, 0x40000003, 0x80000001, 0x80000002, 0x20000001, 0x20000002))
+			if r.Chance(1, 10) {
+				// a tag whose value lives in the slot, declared with a count of 0 (or 1) and a slot
+				// full of bytes: what is reported for it must come from this entry alone
+				switch kind {
+				case 0:
+					tg = r.Pick(0x0112, 0x0100, 0x0101, 0x0112)
+				case 1:
+					tg = r.Pick(0x8822, 0x9207, 0x9209, 0xa402, 0x8827, 0xa405, 0xa002)
+				default:
+					tg = r.Pick(0x0001, 0x0003, 0x0005)
+				}
+				ty = r.Pick(3, 3, 1, 2, 7, 4)
+				cnt = uint32(r.Pick(0, 0, 0, 1))
+			}
 			e := out[entries+12*i:]
 			copy(e, u16(tg))
 			copy(e[2:], u16(ty))
